@@ -341,6 +341,9 @@ def make_cases(d, dd, rng, builtins, p, fixed_inputs, fixed_scripts):
     inputs += gen_defs.gen_inputs(rng, d, builtins, n_random=p['n_rand_inputs'], exhaustive_len=p['n_exh'], max_alpha=p['max_alpha'])
     # long inputs: one repeated character, unlexable only, long mix (C09)
     alpha = gen_defs.def_alphabet(d, builtins) or [97]
+    n_before_special = len(inputs)
+    for sp in gen_defs.UNICODE_POOL:
+        inputs.append([alpha[0], sp, alpha[0], alpha[-1], sp, sp, 0x7A])
     inputs.append([alpha[0]] * 200)
     inputs.append([0x7A] * 50)
     inputs.append([rng.choice(alpha + [0x7A, 10, 9, 0x4E2D, 0x301]) for _ in range(p['long_input'] if nm.endswith('0') else 300)])
@@ -350,6 +353,7 @@ def make_cases(d, dd, rng, builtins, p, fixed_inputs, fixed_scripts):
         if k not in seen:
             seen.add(k)
             uniq.append(list(w))
+    special = set(tuple(w) for w in inputs[n_before_special:n_before_special + len(gen_defs.UNICODE_POOL)])
     inputs = uniq
     scripts = list(fixed_scripts.get(nm) or []) or gen_defs.gen_scripts(rng, d)
     cases = []
@@ -357,11 +361,14 @@ def make_cases(d, dd, rng, builtins, p, fixed_inputs, fixed_scripts):
         for j, sc in enumerate(scripts):
             if len(inp) > 400 and j > 0:
                 continue
-            cases.append({'prog': nm, 'id': 'i%ds%dk0' % (i, j), 'ctor': 0, 'ncalls': len(inp) + 3, 'input': inp, 'script': sc, 'clones': [], 'grp': (i, j)})
-    # constructor variants (C14) and clone points (C15) on a subset
+            cases.append({'prog': nm, 'id': 'i%ds%dk0' % (i, j), 'ctor': 0, 'ncalls': len(inp) + 3, 'input': inp, 'script': sc, 'clones': [], 'grp': (i, j),
+                          'special': tuple(inp) in special})
+    # constructor variants (C14) and clone points (C15) on a subset: the first short inputs plus one input
+    # per special character (each alone among ASCII: newline, tab, 2-4 byte, wide, zero-width, soft hyphen, ..)
     sub = [c for c in cases if len(c['input']) <= 12][: p['ctor_inputs'] * max(1, len(scripts))]
+    sub += [c for c in cases if c.get('special') and c['grp'][1] == 0]
     extra = []
-    for c in sub[: p['ctor_inputs'] * 2]:
+    for c in sub[: p['ctor_inputs'] * 2] + [c for c in sub if c.get('special')]:
         for ctor in (1, 2, 3, 4):
             e = dict(c)
             e['ctor'] = ctor
